@@ -1,0 +1,26 @@
+//go:build verif
+
+package regexp2
+
+import "sync/atomic"
+
+// Scheduling points of makeDeadline (build tag verif): the harness leg c14-interleave installs a
+// callback that parks one goroutine between its unlocked loads of the clock (point 1) and the
+// critical section, runs another call to completion, and releases the first one, so that the
+// interleavings the Coq model quantifies over are also produced deterministically on the real code.
+var verifClockHook atomic.Pointer[func(int)]
+
+func verifClockPoint(i int) {
+	if f := verifClockHook.Load(); f != nil {
+		(*f)(i)
+	}
+}
+
+// VerifSetClockHook installs (or, with nil, removes) the callback run at every scheduling point.
+func VerifSetClockHook(f func(point int)) {
+	if f == nil {
+		verifClockHook.Store(nil)
+		return
+	}
+	verifClockHook.Store(&f)
+}
